@@ -41,6 +41,7 @@ def gen_plan(rng, tier, index):
             'noise': rng.pick([0, 0, 0.25, 1, 3]), 'noise2': rng.pick([0.5, 2, 9]),
             'noise_cov': rng.chance(0.3), 'cov_seed': rng.randrange(10 ** 6),
             'use_exact_signal': rng.chance(0.7), 'use_same_signal': rng.chance(0.4),
+            'signal_cov': rng.chance(0.12), 'noise_cov_trial': rng.chance(0.2),
             'faults': {'rate': 0, 'kinds': []}}
     return plan
 
@@ -143,12 +144,19 @@ def _design(plan):
     return cv, cidx, labels, (cond_vec, part_vec)
 
 
-def _spd(plan):
+def _spd(plan, n=None, salt=0):
     import random
-    r = random.Random(plan['cov_seed'])
-    n = plan['n_channel']
+    r = random.Random(plan['cov_seed'] + salt)
+    n = plan['n_channel'] if n is None else n
     A = np.array([[r.randint(-2, 2) / 2.0 for _ in range(n)] for _ in range(n)])
     return A @ A.T + np.eye(n)
+
+
+def _noise_candidates(e, L, Lt):
+    """the i.i.d. noise term with the requested covariance factors applied; the statement fixes additivity and the sqrt
+    scaling, not which triangle of the Cholesky factor is used, so both orientations count"""
+    chan = [e] if L is None else [e @ L, e @ L.T]
+    return [x for c in chan for x in ([c] if Lt is None else [Lt @ c, Lt.T @ c])]
 
 
 def _model(plan):
@@ -168,7 +176,7 @@ def _model(plan):
     return m, theta, pred
 
 
-def _simulate(ctx, plan, noise, noise_cov, script=None, strict=False, model=None):
+def _simulate(ctx, plan, noise, noise_cov, script=None, strict=False, model=None, trial_cov=None):
     from rsatoolbox.simulation import make_dataset
     m, theta, pred = _model(plan)
     if model is not None:
@@ -176,9 +184,14 @@ def _simulate(ctx, plan, noise, noise_cov, script=None, strict=False, model=None
     cv, cidx, labels, _ = _design(plan)
     seam = RngSeam(ctx, plan['serve_seed'], plan.get('faults'), script=script, strict_script=strict)
     with seam:
+        kw = {}
+        if plan.get('signal_cov'):
+            kw['signal_cov_channel'] = _spd(plan, salt=7)        # part of the signal: the same in every replay
+        if trial_cov is not None:
+            kw['noise_cov_trial'] = trial_cov
         ds = make_dataset(m, theta, cv, n_channel=plan['n_channel'], n_sim=plan['n_sim'], signal=plan['signal'],
                           noise=noise, noise_cov_channel=noise_cov, use_exact_signal=plan['use_exact_signal'],
-                          use_same_signal=plan['use_same_signal'])
+                          use_same_signal=plan['use_same_signal'], **kw)
     return ds, seam, (m, theta, pred, cv, cidx, labels)
 
 
@@ -220,9 +233,12 @@ def execute(plan, ctx):
         if plan.get('warmup', True) and plan['n_cond'] % 2 == 0:
             # an earlier simulation from the same model object: later ones must still reproduce the model's RDM
             _simulate(ctx, plan, 0, None, model=shared_model)
+        n_obs_plan = len(_design(plan)[1])
+        tcov = _spd(plan, n=n_obs_plan, salt=3) if plan.get('noise_cov_trial') else None
         ds, seam, (m, theta, pred, cv, cidx, labels) = _simulate(ctx, plan, plan['noise'], cov,
                                                                  script=plan.get('draw_script'),
-                                                                 strict=plan.get('strict_script', False), model=shared_model)
+                                                                 strict=plan.get('strict_script', False), model=shared_model,
+                                                                 trial_cov=tcov)
     except HarnessError:
         raise
     except Exception as e:
@@ -291,16 +307,36 @@ def execute(plan, ctx):
         else:
             sig_draws, noise_draws = served[0::2], served[1::2]
     L = np.linalg.cholesky(cov) if cov is not None else None
-    sig_terms = []
-    for s, d in enumerate(ds):
-        eps = ndtri(np.asarray(noise_draws[s]['result'])) * np.sqrt(plan['noise'])
-        if L is not None:
-            eps = eps @ L
-        sig_terms.append(d.measurements - eps)
+    Lt = np.linalg.cholesky(tcov) if tcov is not None else None
+    # the signal terms: a replay of the identical draw history with zero noise variance
+    script = seam.script_of_served()
+    try:
+        d0, _, _ = _simulate(ctx, plan, 0, None, script=script, strict=True, model=shared_model)
+    except HarnessError:
+        raise
+    except Exception as e:
+        ctx.violation('sim_ref.clause4', 'make_dataset:replay-raises', f'replay with zero noise raised {type(e).__name__}: {e}')
+        return
+    sig_terms = [np.array(d.measurements, dtype=float) for d in d0]
     # measured on the unchanged tree (1500 plans): max relative error 2.5e-6 when n_channel == n_cond (the mean removal
     # across channels makes the draw matrix singular and the LDL clamp at 1e-15 then costs accuracy), 1.2e-7 otherwise
     tol = 1e-3 if n_ch == nc else 1e-5
     scale = 1 + float(np.max(np.abs(pred))) * plan['signal']
+    # ---- clause 4a: the run's own noise term is the served draw, scaled by sqrt(noise), with the requested covariance
+    # factors, added to the signal term
+    lmax = 1 + max(float(np.max(np.abs(L))) if L is not None else 0.0, float(np.max(np.abs(Lt))) if Lt is not None else 0.0)
+    for s, d in enumerate(ds):
+        iid0 = ndtri(np.asarray(noise_draws[s]['result']))
+        n_act = np.asarray(d.measurements, dtype=float) - sig_terms[s]
+        atol = 1e-7 * (1 + float(np.max(np.abs(iid0)))) * scale * lmax ** 2 * max(n_ch, n_obs) * (1 + np.sqrt(plan['noise']))
+        if not any(np.allclose(n_act, c, atol=atol, rtol=0) for c in _noise_candidates(iid0 * np.sqrt(plan['noise']), L, Lt)):
+            which = 'noise-additive' if (L is None and Lt is None) else 'noise-cov'
+            ctx.violation('sim_ref.clause4', 'make_dataset:' + which,
+                          f'simulation {s}: data - zero-noise replay is not the served noise draw scaled by sqrt({plan["noise"]})'
+                          f'{"" if which == "noise-additive" else " times the Cholesky factors of the requested covariances"} '
+                          f'(channel cov {L is not None}, trial cov {Lt is not None}, max abs term {float(np.max(np.abs(n_act)))})')
+            return
+    ctx.probe('noise_term_checked' + ('_trialcov' if Lt is not None else ''))
     # ---- clause 3: same signal / fresh signal
     if n_sim > 1:
         if plan['use_same_signal']:
@@ -332,8 +368,11 @@ def execute(plan, ctx):
                               f'the design matrix times one set of condition patterns (residual {res})')
                 return
         ctx.probe('design_matrix_rows_checked')
-    # ---- clause 1: exact signal -> RDM of the signal term equals signal * model RDM
-    if plan['use_exact_signal']:
+    # ---- clause 1: exact signal -> RDM of the signal term equals signal * model RDM (only "whenever no signal channel
+    # covariance is imposed")
+    if plan['use_exact_signal'] and plan.get('signal_cov'):
+        ctx.probe('signal_cov_imposed_exact_rdm_not_judged')
+    if plan['use_exact_signal'] and not plan.get('signal_cov'):
         exp = plan['signal'] * pred
         for s in range(n_sim):
             got = _rdm_from_data(sig_terms[s], cidx, nc, Z=cv if plan['design'] == 'matrix_mixed' else None)
@@ -369,15 +408,13 @@ def execute(plan, ctx):
                         return
             ctx.probe('calc_rdm_consistency_checked')
     # ---- clause 4: additivity and sqrt scaling by replay of the identical draw history
-    script = seam.script_of_served()
     v1, v2 = 1.0, float(plan['noise2'])
     try:
-        d0, _, _ = _simulate(ctx, plan, 0, None, script=script, strict=True, model=shared_model)
         d1, _, _ = _simulate(ctx, plan, v1, None, script=script, strict=True, model=shared_model)
         d2, _, _ = _simulate(ctx, plan, v2, None, script=script, strict=True, model=shared_model)
         dc = None
-        if cov is not None:
-            dc, _, _ = _simulate(ctx, plan, v1, cov, script=script, strict=True, model=shared_model)
+        if cov is not None or tcov is not None:
+            dc, _, _ = _simulate(ctx, plan, v1, cov, script=script, strict=True, model=shared_model, trial_cov=tcov)
     except HarnessError:
         raise
     except Exception as e:
@@ -397,15 +434,12 @@ def execute(plan, ctx):
             ctx.violation('sim_ref.clause4', 'make_dataset:noise-sqrt-scaling',
                           f'simulation {s}: noise term at variance {v2} is not sqrt({v2}/{v1}) times the term at variance {v1}')
             return
-        if not np.allclose(d0[s].measurements, sig_terms[s], atol=1e-7 * scale * (1 + sc * np.sqrt(max(plan["noise"], 1))), rtol=0):
-            ctx.violation('sim_ref.clause4', 'make_dataset:signal-depends-on-noise',
-                          f'simulation {s}: the zero-noise replay is not the signal term of the noisy run')
-            return
         if dc is not None:
             nc_ = dc[s].measurements - d0[s].measurements
-            if not np.allclose(nc_, n1 @ L, atol=1e-7 * sc * scale * (1 + float(np.max(np.abs(L)))) * n_ch, rtol=0):
+            if not any(np.allclose(nc_, c, atol=1e-7 * sc * scale * lmax ** 2 * max(n_ch, n_obs), rtol=0)
+                       for c in _noise_candidates(n1, L, Lt)):
                 ctx.violation('sim_ref.clause4', 'make_dataset:noise-cov',
-                              f'simulation {s}: noise with channel covariance is not the i.i.d. noise term times the Cholesky factor')
+                              f'simulation {s}: noise with channel/trial covariance is not the i.i.d. noise term times the Cholesky factors')
                 return
     ctx.probe('additivity_replayed')
     rank = int(np.linalg.matrix_rank(pred)) if nc > 1 else 0
